@@ -98,7 +98,7 @@ def run(tier, seed):
         ctx.transitions += 1
         rec = r.tagged("expectation")[0]
         target = [qpair(v) for v in rec[6]]
-        entries = [(mode, None)] if mode != "batch" else [("batch", "many_product")] if strat == "product" else \
+        entries = [(mode, None)] if mode != "batch" else [("batch", "many_product"), ("batch", "interval_product")] if strat == "product" else \
             [("batch", "many"), ("batch", "original"), ("batch", "interval")] + \
             ([("batch", "original_product"), ("batch", "original_foreign")] if cfg == "batch_m2n2" or not quick else [])
         for (_, entry) in entries:
@@ -106,6 +106,7 @@ def run(tier, seed):
                 exp, tot, nruns, kinds = XP.batch(entry, d, n, m)
                 ok = all(abs(float(a) - float(b)) <= 1e-9 * (1 + abs(float(b))) for a, b in zip(exp, target))
                 what = "BatchSage.explain_many (explainer built with a product imputer)" if entry == "many_product" else \
+                    "IntervalSage.explain_one (explainer handed an IntervalStorage and a product imputer)" if entry == "interval_product" else \
                     "IntervalSage.explain_one (recomputing call)" if entry == "interval" else \
                     "BatchSage.explain_many_original (explainer built with a product imputer)" if entry == "original_product" else \
                     "BatchSage.explain_many_original (storage holds other rows than the data set)" if entry == "original_foreign" else \
